@@ -157,6 +157,18 @@ class Ctx:
         if bad.any():
             raise Violation((self.sc.name,) + tuple(sig) + ("nonfinite",),
                             dict(detail, n_nonfinite=int(bad.sum())))
+        if np.ndim(atol) > 0:
+            # element-wise absolute floor (same shape as the data, or broadcastable to it)
+            tolv = np.broadcast_to(np.asarray(atol, dtype=float) + rtol * scale, diff.shape)
+            with np.errstate(all="ignore"):
+                ratio = np.where(tolv > 0, diff / np.where(tolv > 0, tolv, 1.0), np.where(diff == 0, 0.0, np.inf))
+            i = int(np.argmax(ratio))
+            self.measure("/".join(sig), float(np.ravel(ratio)[i]))
+            if np.ravel(ratio)[i] > 1.0:
+                raise Violation((self.sc.name,) + tuple(sig),
+                                dict(detail, err=float(np.ravel(diff)[i]), tol=float(np.ravel(tolv)[i]), scale=scale, index=i,
+                                     got=float(np.ravel(got)[i].real), want=float(np.ravel(want)[i].real)))
+            return float(diff.max())
         err = float(diff.max())
         tol = atol + rtol * scale
         self.measure("/".join(sig), err / tol if tol > 0 else (0.0 if err == 0 else float("inf")))
